@@ -706,6 +706,11 @@ class FuncAnalysis:
             return self.call(e, env, as_context)
         if isinstance(e, ast.Await):
             return self.expr(e.value, env)
+        if isinstance(e, (ast.Yield, ast.YieldFrom)):
+            # a generator (e.g. a @contextmanager helper): the yielded value goes to the consumer, what is sent back is unknown
+            if e.value is not None:
+                self.expr(e.value, env)
+            return FRESH
         raise AnalysisError("EFFECTS", f"unknown expression kind {type(e).__name__}", f.where(e))
 
     def _is_advanced_index(self, sl, env):
